@@ -116,6 +116,7 @@ theorem procQ_cases (d : D) (i : Nat) (q : Q) : procQ d i q = (q, {}, false) ∨
         simp only [Bool.false_eq_true, if_false]
         split <;> split <;> rfl
       | mcopy => right; rfl
+      | fl => right; simp only [Bool.false_eq_true, if_false]; split <;> rfl
       | unhandled => left; rfl
 
 theorem procQ_silent (d : D) (i : Nat) (q : Q) (h : (procQ d i q).2.2 = false) :
@@ -176,6 +177,7 @@ theorem procQ_claims (d : D) (i : Nat) (q : Q) (h : startable q) : (procQ d i q)
     | kern n => cases n <;> simp at he
     | copy d2h p => simp only at he; split at he <;> split at he <;> simp at he
     | mcopy => simp at he
+    | fl => simp only at he; split at he <;> simp at he
     | unhandled => simp [Cmd.handled] at hh
   · exact ht
 
